@@ -263,9 +263,9 @@ def check_kernel(out, facts):
     cfg = facts.cfg
     maxp = (facts.consts.get('codec::MAX_PREALLOCATION') or {}).get('val')
     out.ob('K1', 'MAX_PREALLOCATION <= 16 KiB [%s]' % cfg, isinstance(maxp, int) and 0 < maxp <= 16 * 1024, 'MAX_PREALLOCATION = %s' % maxp, 'src/codec.rs')
-    f = facts.by_path.get('codec::decode_vec_chunked')
+    f = roles(facts).get('chunk')
     if not f:
-        out.fail('K1', 'decode_vec_chunked [%s]' % cfg, 'kernel function not found (anchor missing)', '-')
+        out.fail('K1', 'helper:chunk [%s]' % cfg, 'chunked vector kernel not found (anchor missing)', '-')
         return
     t, v, ev = wire.infer_decoder_fn(facts, f)
     s = sym.tstr(t)
@@ -275,38 +275,49 @@ def check_kernel(out, facts):
         why.append('expected exactly one loop')
     else:
         body = stars[0][2]
-        # loop condition: remaining > 0
-        alts = [x for x in sym.walk(body) if x[0] == 'alt']
-        cond = sym.vstr(alts[0][1][1]) if alts else ''
-        if cond != '(mut num_undecoded_items Gt 0:usize)':
-            why.append('loop does not run while the number of undecoded items is > 0: ' + cond)
-        evs = [e for e in events(body) if e[0] in ('HOOK', 'MUTCALL', 'CALLBACK', 'SET')]
-        kinds = [(e[0], e[1] if e[0] in ('MUTCALL', 'CALLBACK') else None) for e in evs]
-        chunk = 'min(unwrap_or(checked_div(MAX_PREALLOCATION=%s, size_of()), MAX=18446744073709551615), mut num_undecoded_items)' % maxp
-        if kinds != [('HOOK', None), ('MUTCALL', 'reserve_exact'), ('CALLBACK', 'decode_chunk'), ('SET', None)]:
-            why.append('loop body is not hook, reserve_exact, callback, remaining -= chunk: %s' % kinds)
+        alts = [x for x in items(body) if x[0] == 'alt']
+        rem = None
+        if alts and isinstance(alts[0][1], tuple) and alts[0][1][0] == 'if':
+            c = strip(alts[0][1][1])
+            contains(c, lambda x: (globals().__setitem__('_rem', x) or False) if (isinstance(x, tuple) and x and x[0] == 'mutvar') else False)
+            rem = globals().pop('_rem', None)
+        if rem is None:
+            why.append('loop condition does not test a counter of undecoded items')
         else:
-            if sym.vstr(evs[1][3][1]) != chunk:
-                why.append('K1 reservation is %s, not min(MAX_PREALLOCATION / size_of::<T>(), remaining)' % sym.vstr(evs[1][3][1]))
-            cb = evs[2]
-            if [sym.vstr(a) for a in cb[2]] != ['input', 'sink%s' % strip(evs[1][3][0])[1], chunk]:
-                why.append('K2 callback is not invoked with (input, vec, chunk): %s' % [sym.vstr(a) for a in cb[2]])
-            st = evs[3]
-            if not (sym.vstr(st[1]) == 'mut num_undecoded_items' and st[3] == 'SubAssign' and sym.vstr(st[2]) == chunk):
-                why.append('K2 remaining is not decreased by exactly the chunk: ' + sym.tstr(st))
-            # order: the decrement follows the propagated callback
-            seq = [e[0] for e in items(alts[0][2][0][1])] if alts else []
-            if seq[-2:] != ['?', 'SET'] and 'SET' in seq:
-                why.append('K2 decrement is not on the success continuation of the callback')
-        mv = [e for e in events(t) if e[0] == 'SET' and sym.vstr(e[1]) == 'mut num_undecoded_items']
-        init = strip(mv[0][1])[3] if mv else None
-        if mv and sym.vstr(init) != 'len':
-            why.append('remaining does not start at len')
+            # the loop runs exactly while the counter is positive (any spelling)
+            for n in (0, 1, 7):
+                r = eval_expr(alts[0][1][1], lambda x, n=n: n if (isinstance(x, tuple) and x[:2] == rem[:2]) else None)
+                if r is None or bool(r) != (n > 0):
+                    why.append('loop does not run exactly while the number of undecoded items is > 0')
+                    break
+            rs = sym.vstr(rem)
+            live = [x for d, x in alts[0][2] if d == 'true']
+            evs = [e for e in events(live[0] if live else ['eps']) if e[0] in ('HOOK', 'MUTCALL', 'CALLBACK', 'SET')]
+            kinds = [(e[0], e[1] if e[0] == 'MUTCALL' else None) for e in evs]
+            chunk = 'min(unwrap_or(checked_div(MAX_PREALLOCATION=%s, size_of()), MAX=18446744073709551615), %s)' % (maxp, rs)
+            if kinds != [('HOOK', None), ('MUTCALL', 'reserve_exact'), ('CALLBACK', None), ('SET', None)]:
+                why.append('loop body is not hook, reserve_exact, callback, remaining -= chunk: %s' % kinds)
+            else:
+                if sym.vstr(evs[1][3][1]) != chunk:
+                    why.append('K1 reservation is %s, not min(MAX_PREALLOCATION / size_of::<T>(), remaining)' % sym.vstr(evs[1][3][1]))
+                cb = evs[2]
+                if [sym.vstr(a) for a in cb[2]] != ['input', 'sink%s' % strip(evs[1][3][0])[1], chunk]:
+                    why.append('K2 callback is not invoked with (input, vec, chunk): %s' % [sym.vstr(a) for a in cb[2]])
+                st = evs[3]
+                dec_ok = sym.vstr(st[1]) == rs and ((st[3] == 'SubAssign' and sym.vstr(st[2]) == chunk) or
+                                                    (st[3] is None and sym.vstr(st[2]) == '(%s Sub %s)' % (rs, chunk)))
+                if not dec_ok:
+                    why.append('K2 remaining is not decreased by exactly the chunk: ' + sym.tstr(st))
+                seq = [e[0] for e in items(live[0])] if live else []
+                if 'SET' in seq and seq[seq.index('SET') - 1] != '?':
+                    why.append('K2 decrement is not on the success continuation of the callback')
+            if sym.vstr(strip(rem[3])) not in ('len',) and strip(rem[3])[0] != 'param':
+                why.append('remaining does not start at the requested length')
     if not sym.vstr(v).startswith('Ok(sink'):
         why.append('does not return the vector it filled')
-    out.ob('K1-K2', 'decode_vec_chunked [%s]' % cfg, not why, '; '.join(why), f['loc'], sample={'term': s[:400]})
+    out.ob('K1-K2', 'helper:chunk [%s]' % cfg, not why, '; '.join(why), f['loc'], sample={'term': s[:400]})
     # K3 item path
-    g = facts.by_path.get('codec::decode_vec_from_items')
+    g = roles(facts).get('items')
     if g:
         t, v, ev = wire.infer_decoder_fn(facts, g)
         inner = [x for x in sym.walk(t) if x[0] == 'star' and strip(x[1])[0] == 'adt']
@@ -316,11 +327,11 @@ def check_kernel(out, facts):
             body = [e for e in events(inner[0][2]) if e[0] in ('dec', 'MUTCALL', '?')]
             ok = rng.startswith('Range::Range{0: 0:usize, 1: min(') and [e[0] for e in body] == ['dec', '?', 'MUTCALL'] and body[0][1] == 'T' and \
                 body[2][1] == 'push' and sym.vstr(body[2][3][1]) == 'decoded#%s:T' % body[0][2]
-        out.ob('K3', 'decode_vec_from_items [%s]' % cfg, ok, 'item callback is not `for _ in 0..chunk { vec.push(T::decode(input)?) }`: ' + sym.tstr(t)[:300], g['loc'])
+        out.ob('K3', 'helper:items [%s]' % cfg, ok, 'item callback is not `for _ in 0..chunk { vec.push(T::decode(input)?) }`: ' + sym.tstr(t)[:300], g['loc'])
     else:
-        out.fail('K3', 'decode_vec_from_items [%s]' % cfg, 'not found', '-')
+        out.fail('K3', 'helper:items [%s]' % cfg, 'not found', '-')
     # K4-K6 bulk path
-    h = facts.by_path.get('codec::read_vec_from_u8s')
+    h = roles(facts).get('bulk')
     if h:
         t, v, ev = wire.infer_decoder_fn(facts, h)
         why = []
@@ -339,9 +350,9 @@ def check_kernel(out, facts):
             r = sym.vstr(sym.deinit(strip(rd[0][1])))
             if not (r.startswith('index_mut(as_mut_byte_slice(sink') and 'RangeFrom::RangeFrom{0: (len(sink' in r and 'Mul size_of())})' in r):
                 why.append('K4 bytes read are not vec_bytes[old_len * size_of::<T>()..]: ' + r)
-        out.ob('K4-K5', 'read_vec_from_u8s [%s]' % cfg, not why, '; '.join(why), h['loc'], sample={'term': sym.tstr(t)[:300]})
+        out.ob('K4-K5', 'helper:bulk [%s]' % cfg, not why, '; '.join(why), h['loc'], sample={'term': sym.tstr(t)[:300]})
     else:
-        out.fail('K4-K5', 'read_vec_from_u8s [%s]' % cfg, 'not found', '-')
+        out.fail('K4-K5', 'helper:bulk [%s]' % cfg, 'not found', '-')
 
 
 def check_arrays(out, facts):
@@ -357,9 +368,9 @@ def check_arrays(out, facts):
         why.append('expected one bulk read')
     else:
         buf = sym.vstr(sym.deinit(strip(reads[0][1])))
-        if buf != 'from_raw_parts_mut(cast(as_mut_ptr(dst)), calculate_array_bytesize())':
+        if buf != 'from_raw_parts_mut(cast(as_mut_ptr(dst)), %s())' % role_name(facts, 'array_bytesize'):
             why.append('bulk read does not cover exactly calculate_array_bytesize::<T, N>() bytes of the destination: ' + buf)
-    g = facts.by_path.get('codec::calculate_array_bytesize')
+    g = roles(facts).get('array_bytesize')
     if g:
         ev2 = sym.Evaluator(facts)
         v2, t2 = ev2.ev(g['thir'], sym.Ctx(ev2, g))
